@@ -224,8 +224,10 @@ class FeArray(np.ndarray):
         feShape = _FeShape(args) or _FeShape(kwargs.values())
         # numpy calls a dispatched reduction on the stripped array, so the method wrapper never
         # sees it and the axis has to be read here instead
-        if func in _REDUCERS:
-            axis = kwargs.get("axis", args[1] if len(args) > 1 else None)
+        if func in _REDUCERS or func is np.linalg.norm:
+            # np.linalg.norm(x, ord, axis): the axis is its third positional argument
+            pos = 2 if func is np.linalg.norm else 1
+            axis = kwargs.get("axis", args[pos] if len(args) > pos else None)
             if not _KeepsFeAxes(axis, np.ndim(args[0])):
                 feShape = ()
         args = tuple(_Base(arg) for arg in args)
@@ -759,10 +761,9 @@ def Norm(array: FeArray.FeArrayALike, **kwargs) -> FeArray.FeArrayALike:
     """`np.linalg.norm()` wrapper.\n
     see https://numpy.org/doc/stable/reference/generated/numpy.linalg.norm.html"""
 
+    # for a FeArray the array protocol types the result: a finite-element array
+    # when the norm is taken over tensor axes only, a plain array otherwise
     res: FeArray.FeArrayALike = np.linalg.norm(array, **kwargs)
-
-    if isinstance(array, FeArray):
-        res = FeArray.asfearray(res)
 
     return res
 
